@@ -45,6 +45,12 @@ def localPub (sides : List Nat) : Nat → Nat → Msg → List (Nat × Msg)
            | none    => []
            | some lm => localPub sides fuel u lm))
 
+/-- `ClientComponent.advance` / `AgentComponent.advance` -> `BaseComponent.advance`: the state update
+    that is published carries the caller's `fwd` argument, or the class default when none is given;
+    no origin marker is set (the out-forwarder stamps it) -/
+def advanceMsg (dflt : Bool) (fwdArg : Option Bool) (body : Nat) : Msg :=
+  { origin := none, fwd := some (match fwdArg with | some b => b | none => dflt), body := body }
+
 /-- number of deliveries to the local subscribers of side `t` -/
 def deliveries (ds : List (Nat × Msg)) (t : Nat) : Nat :=
   (ds.filter (fun d => d.1 = t)).length
